@@ -14,6 +14,9 @@ ACTIONS = [("UtteranceBotAction", "script"), ("GestureBotAction", "gesture")]
 VALUES = [1, 2]
 
 
+RICH_VALUES = ['regex("ab.*c")', '{"a", "b"}', '[[1], {"k": [2, 3]}]', "None", "True", "1.5", '{"k": {"n": [1, {"z": "q"}]}}', '"text \\"quoted\\""', "[]", "{}", "-3"]
+
+
 def render_args(args):
     if not args:
         return ""
@@ -121,7 +124,7 @@ def count_statements(prog):
 # ------------------------------------------------------------------------------------------------
 
 class Gen:
-    def __init__(self, d, n_flows=None, instant_end=False, allow_vars=True, allow_actions=True, allow_groups=True, allow_when=True, max_body=4):
+    def __init__(self, d, n_flows=None, instant_end=False, allow_vars=True, allow_actions=True, allow_groups=True, allow_when=True, max_body=4, rich_values=False):
         self.d = d
         self.n = n_flows if n_flows is not None else d.randint(2, 6, "nflows")
         self.instant_end = instant_end
@@ -130,6 +133,7 @@ class Gen:
         self.allow_groups = allow_groups
         self.allow_when = allow_when
         self.max_body = max_body
+        self.rich_values = rich_values
         self.uid = 0
         self.activated = set()
 
@@ -195,6 +199,8 @@ class Gen:
             kinds += [("assign", 1), ("if", 1 if depth < 2 else 0), ("while", 1 if depth < 1 else 0)]
         if self.allow_groups:
             kinds.append(("group", 1))
+        if self.rich_values:
+            kinds += [("show", 4), ("refshow", 2)]
         kinds.append(("abort", 0.4))
         kinds.append(("return", 0.3))
         k = d.weighted([x for x in kinds if x[1] > 0], key, "kind")
@@ -237,6 +243,26 @@ class Gen:
             op = d.choice(["and", "or"], key, "gop")
             a, b = self.wait_external((key, "ga")), self.wait_external((key, "gb"))
             return [{"k": "group", "op": "match", "formula": {"op": op, "args": ["%s(%s)" % (a["ev"], render_args(a["args"])), "%s(%s)" % (b["ev"], render_args(b["args"]))]}}]
+        if k == "show":
+            # a value of a serialisation-relevant type, made observable through a marker event
+            v = "$r%d" % d.randint(0, 2, key, "rv")
+            expr = d.choice(RICH_VALUES, key, "rich")
+            out = []
+            if d.chance(0.3, key, "glob"):
+                out.append({"k": "global", "var": v})
+            out.append({"k": "assign", "var": v, "expr": expr})
+            out.append(self.wait_external((key, "rw")))
+            out.append({"k": "send", "ev": self.fresh("M"), "args": {"v": v}})
+            return out
+        if k == "refshow":
+            # references to events / actions kept in variables across a wait
+            ref = "$" + self.fresh("e")
+            w = self.wait_external((key, "rf"))
+            w["ref"] = ref
+            name, par = d.choice(ACTIONS, key, "ract")
+            aref = "$" + self.fresh("a")
+            return [w, {"k": "start_action", "action": name, "args": {par: self.fresh("s")}, "ref": aref}, self.wait_external((key, "rf2")),
+                    {"k": "raw", "text": "send %s(n=%s.name, a=%s.name)" % (self.fresh("M"), ref, aref)}]
         if k == "abort":
             return [{"k": "abort"}]
         if k == "return":
